@@ -16,6 +16,9 @@ func checkC03(c *Ctx) {
 	c.Decides("ORIENT: a node made the root in the block that attaches it as the child end of a new branch (ConnectNodes(parent, child); SetRoot(child)) is followed by a re-orientation")
 	c.orientRule("ORIENT")
 	c.Floor("ORIENT", 4)
+	c.Decides("ENDS: where an orientation test re-targets one end of a branch, the other outcome of the test re-targets the other end of the same branch to the same node (NNI apply/undo)")
+	c.endsBothOrientations("ENDS", c.AllFuncs("tree"), "symmetric adjacency and every branch pointing away from the root")
+	c.Floor("ENDS", 4)
 	c.Decides("SNAPSHOT: a loop of package tree over a snapshot (make+copy) of a node's neigh or br reads the node's other parallel slice at the loop index only through a snapshot as well")
 	ns, _ := c.snapshotParallel("SNAPSHOT", c.AllFuncs("tree"))
 	c.Extra["snapshot_loops"] = ns
